@@ -94,6 +94,10 @@ func (e *Enc) Get(s *State, comp string) Term {
 				p := e.Get(s.prev, comp)
 				e.sc.Assert(fmt.Sprintf("(forall ((r Int)) (=> (select %s r) (select %s r)))", p, t))
 			}
+			if comp == "$clock" && sort == "Int" {
+				// the ghost clock (time.spec) never runs backwards, whoever lets time pass
+				e.sc.Assert("(>= " + t + " " + e.Get(s.prev, comp) + ")")
+			}
 			e.initComp(comp, t)
 			// ghost call logs are append-only
 			if strings.HasPrefix(comp, "$") && e.isLogComp(comp) {
